@@ -40,6 +40,17 @@ std::optional<DFS::VolumeMountResult> stub_mount(const DFS::StorageConfiguration
   return DFS::VolumeMountResult(std::unique_ptr<DFS::FileSystem>(), v);
 }
 
+// CatalogEntry::visit_file_body_piecewise is replaced (ir2c --replace) by this one-byte body: the sector walk is the
+// subject of C01/C11 obligations, here only the real visitor lambda (write to the output stream) matters.
+bool stub_visit(const DFS::CatalogEntry *, DFS::DataAccess&, std::function<bool(const DFS::byte *, const DFS::byte *)> visitor)
+{
+  static const DFS::byte body[1] = {0x41};
+  return visitor(body, body + 1);
+}
+
+#ifndef DEST
+#define DEST "out"
+#endif
 // One catalogued file whose 7 name bytes and directory byte are arbitrary (hostile catalogue).
 extern "C" void h_extract_paths(void)
 {
@@ -57,8 +68,9 @@ extern "C" void h_extract_paths(void)
 #endif
   DFS::DFSContext ctx('$', DFS::VolumeSelector(0));
   CommandExtractFiles cmd;
-  const bool slash = vf_nondet_u8() & 1;
-  std::vector<std::string> args; args.push_back("extract-files"); args.push_back(slash ? "out/" : "out");
+  std::vector<std::string> args; args.push_back("extract-files"); args.push_back(DEST);     // destination constant per query
+  const char want[] = DEST "/";
+  const size_t dlen = (sizeof(DEST) - 1) - (DEST[sizeof(DEST) - 2] == '/' ? 1 : 0);           // length without a trailing slash
   bool ok = false, threw = false;
   try { ok = cmd.invoke(storage, ctx, args); } catch (std::exception&) { threw = true; }
   vf_assert(!threw, "no exception");
@@ -67,9 +79,11 @@ extern "C" void h_extract_paths(void)
     if (f < std::vf_ofstream::opened)
       {
         const std::string& p = std::vf_ofstream::paths[f];
-        vf_assert(p.size() > 4 && p[0] == 'o' && p[1] == 'u' && p[2] == 't' && p[3] == '/', "created files are inside the destination directory");
+        bool prefix = p.size() > dlen + 1;
+        for (size_t i = 0; i < dlen + 1; ++i) if (i < p.size() && p[i] != want[i]) prefix = false;
+        vf_assert(prefix, "created files are inside the destination directory");
         bool inner_slash = false;
-        for (size_t i = 4; i < 4 + 14; ++i) if (i < p.size() && p[i] == '/') inner_slash = true;
+        for (size_t i = dlen + 1; i < dlen + 1 + 14; ++i) if (i < p.size() && p[i] == '/') inner_slash = true;
         vf_assert(!inner_slash, "the part of the path that comes from the catalogue contains no path separator");
       }
   vf_assert(std::vf_ofstream::opened <= 2, "at most the body file and its .inf file are created");
